@@ -123,6 +123,7 @@ func (opts *CollectOptions) generate(ctx context.Context, id int) *birch.Documen
 		}()
 	}
 	wg.Wait()
+	close(elems)
 
 	for elem := range elems {
 		doc.Append(elem)
